@@ -1,7 +1,121 @@
+import AuModel.Factoring
+import Generated.FirstPrimes
 import Driver.Util
-open Au
+open Au Au.U64
 
+namespace C12Cmd
+
+def flags {α : Type} (w : W α) : String :=
+  s!"wrapped={b01 w.wrapped} divz={b01 w.divz} stuck={b01 w.stuck}"
+
+def natW (w : W Nat) : String := s!"val={w.val} {flags w}"
+
+/-- A `uint64_t` operand. -/
+def u64? (s : String) : Option Nat :=
+  match s.toNat? with
+  | some v => if v < M then some v else none
+  | none => none
+
+/-- An `int64_t` operand. -/
+def i64? (s : String) : Option Int :=
+  match s.toInt? with
+  | some v => if -9223372036854775808 ≤ v ∧ v ≤ 9223372036854775807 then some v else none
+  | none => none
+
+def fuel : Fuel := {}
+def table : List Nat := Au.Generated.firstPrimes
+
+def magStr : MagOutcome → String
+  | .mag [] => "mag=1"
+  | .mag m => "mag=" ++ "*".intercalate (m.map fun be => s!"{be.1}^{be.2}")
+  | .rejected why => "rejected=" ++ why.replace " " "_"
+
+def run3 (f : Nat → Nat → Nat → W Nat) : List String → String
+  | [a, b, c] =>
+    match u64? a, u64? b, u64? c with
+    | some a, some b, some c => natW (f a b c)
+    | _, _, _ => "bad-op"
+  | _ => "bad-op"
+
+def run2 (f : Nat → Nat → W Nat) : List String → String
+  | [a, b] =>
+    match u64? a, u64? b with
+    | some a, some b => natW (f a b)
+    | _, _ => "bad-op"
+  | _ => "bad-op"
+
+def run1 (f : Nat → String) : List String → String
+  | [a] =>
+    match u64? a with
+    | some a => f a
+    | none => "bad-op"
+  | _ => "bad-op"
+
+def prStr (w : W PrimeResult) : String := s!"val={w.val.name} {flags w}"
+
+/-- Everything the harness prints for one `n` (the `P` line). -/
+def cmdP (n : Nat) : String :=
+  let ip := isPrime fuel n
+  let sq := isPerfectSquare n
+  let mr := millerRabin 2 n
+  -- strong_lucas(2^64 - 1) does not terminate (n + 1 wraps to 0); the harness skips it too
+  let lucas := if n = maxU then "skipped" else (strongLucas fuel.dSearch n).val.name
+  let lstuck := if n = maxU then false else (strongLucas fuel.dSearch n).stuck
+  let fac := if n > 1 then findPrimeFactor fuel table n else W.ok 0
+  let bad := ip.divz || ip.stuck || sq.divz || sq.stuck || mr.divz || mr.stuck || mr.wrapped ||
+             lstuck || fac.divz || fac.stuck
+  s!"prime={b01 ip.val} sq={b01 sq.val} mr2={mr.val.name} lucas={lucas} factor={fac.val} modelbad={b01 bad}"
+
+end C12Cmd
+
+open C12Cmd in
 def dispatchC12 : List String → Option String
+  | "c12" :: "addmod" :: args => some (run3 addMod args)
+  | "c12" :: "submod" :: args => some (run3 subMod args)
+  | "c12" :: "mulmod" :: args => some (run3 mulMod args)
+  | "c12" :: "powmod" :: args => some (run3 powMod args)
+  | "c12" :: "halfmod" :: args => some (run2 halfModOdd args)
+  | "c12" :: "gcd" :: args => some (run2 gcd args)
+  | "c12" :: "decompose" :: args =>
+    some (run1 (fun n => let w := decompose n
+                         s!"s={w.val.powerOfTwo} d={w.val.oddRemainder} {flags w}") args)
+  | "c12" :: "mr" :: args =>
+    some (match args with
+      | [a, n] => match u64? a, u64? n with
+        | some a, some n => prStr (millerRabin a n)
+        | _, _ => "bad-op"
+      | _ => "bad-op")
+  | "c12" :: "sq" :: args =>
+    some (run1 (fun n => let w := isPerfectSquare n; s!"val={b01 w.val} {flags w}") args)
+  | "c12" :: "jacobi" :: args =>
+    some (match args with
+      | [a, n] => match i64? a, u64? n with
+        | some a, some n => let w := jacobiSymbol a n; s!"val={w.val} {flags w}"
+        | _, _ => "bad-op"
+      | _ => "bad-op")
+  | "c12" :: "lucas" :: args => some (run1 (fun n => prStr (strongLucas fuel.dSearch n)) args)
+  | "c12" :: "bpsw" :: args => some (run1 (fun n => prStr (bailliePSW fuel.dSearch n)) args)
+  | "c12" :: "rho" :: args => some (run1 (fun n => natW (findPollardRhoFactor fuel n)) args)
+  | "c12" :: "factor" :: args => some (run1 (fun n => natW (findPrimeFactor fuel table n)) args)
+  | "c12" :: "P" :: args => some (run1 cmdP args)
+  | "c12" :: "mag" :: args =>
+    some (run1 (fun n => let w := magOfNat fuel table n; s!"{magStr w.val} {flags w}") args)
+  | "c12" :: "magmul" :: args =>
+    -- mag<a>() * mag<b>() and mag<a*b>() side by side
+    some (match args with
+      | [a, b] => match u64? a, u64? b with
+        | some a, some b =>
+          if a * b < M then
+            let wa := magOfNat fuel table a
+            let wb := magOfNat fuel table b
+            let wp := magOfNat fuel table (a * b)
+            match wa.val, wb.val, wp.val with
+            | .mag ma, .mag mb, .mag mp =>
+              s!"{magStr (.mag (magMul ma mb))} prod{magStr (.mag mp)} same={b01 (decide (magMul ma mb = mp))} stuck={b01 (wa.stuck || wb.stuck || wp.stuck)}"
+            | _, _, _ => "rejected"
+          else "bad-op"
+        | _, _ => "bad-op"
+      | _ => "bad-op")
   | _ => none
 
-/-! Driver commands for C12. -/
+/-! Driver commands for C12 (AuModel.Mod / Primes / Factoring). -/
